@@ -12,7 +12,7 @@ import (
 
 func init() {
 	register("C07",
-		"the only write evaluation makes to the data map is the binder, called from one place that is dominated by `target is a bare identifier` and `name starts with $` (failing edges return an error), storing and yielding the very evaluation of the right operand; left is evaluated before right and handlers receive (left, right) in that order; comma yields its right operand; argument and element loops run 0..Len() in order after the callee; every decimal / reflect mutator in evaluator-reachable code (builtins included) writes only into a number or container created in the same function; no store, map update, append-in-place or sort reaches an object obtained from caller data.",
+		"the only write evaluation makes to the data map is the binder, called from one place that is dominated by `target is a bare identifier` and `name starts with $` (failing edges return an error), storing and yielding the very evaluation of the right operand; left is evaluated before right and handlers receive (left, right) in that order; comma yields its right operand; argument and element loops run 0..Len() in order after the callee; every decimal / reflect mutator in evaluator-reachable code (builtins included) writes only into a number or container created in the same function; no store, map update, append-in-place or sort reaches an object obtained from caller data. The binder stores (key, value) on every path, null included.",
 		"what host functions do with the values they are handed.",
 		runC07)
 }
